@@ -105,7 +105,7 @@ namespace Givaro {
         }
 
         Rep& primefactor(Rep& r, const Rep& n) const {
-            while ((iffactorprime(r,n,0) == 1) && (! isprime(n, _GIVARO_ISPRIMETESTS_)) ) {}
+            while ((iffactorprime(r,n,0) == 1) && GIVARO_ISGT(n,1) && (! isprime(n, _GIVARO_ISPRIMETESTS_)) ) {}
             return r;
         }
 
